@@ -94,6 +94,10 @@ def run(ctx):
             ctx.note("bounded check c16_update_history not available")
         if c16_update_history is not None:
             c16_update_history.run_bounded(ctx)
+    import os as _os
+    if ctx.tier == "thorough" and not _os.environ.get("VERIF_REPO") and not _os.environ.get("VERIF_NO_CANARIES"):
+        from ._generic import run_canaries
+        run_canaries(ctx)
     return ctx.finish(
         "proof",
         "update_file_custom_metadata is executed symbolically from its real source (writer.write_thrift inlined) on a "
